@@ -1,204 +1,37 @@
 """C01 — fixing never changes what the VHDL means.
 
-Monitors on real fix runs (every rule in the context of all other rules):
- M1 per application: code(before) -> code(after) of every rule.fix() and of every non-rule
-    mutation (fix_blank_lines, fix_trailing_whitespace, set_token_indent, update_token_map) obeys
-    the rule's edit contract (identity for all but the documented structural rules);
- M2 chain/conservation: the text before each event equals the text after the previous one (a
-    change outside a monitored application breaks the chain) and code(input) -> code(final)
-    only differs by permitted edits;
- M3 boundary: for a sample driven through the real CLI, the file written by --fix holds exactly
-    the text of the monitored in-memory model.
-code() comes from the independent lexer applied to the emitted *text*.
-"""
-import json
-import os
-import shutil
-import time
-
-from lib import cfgpool, effects, fixrun, harness, monitors, vlex, vsgapi
+Monitors on real fix runs (every rule in the context of all other rules), lib/fixmon.py:
+ M1 per application: code(before) -> code(after) of every rule.fix() and of every non-rule mutation
+    (fix_blank_lines, fix_trailing_whitespace, set_token_indent, update_token_map) obeys the
+    rule's edit contract (identity for all but the documented structural rules; lib/effects.py);
+ M2 chain/conservation: the text before each event equals the text after the previous one (a change
+    outside a monitored application breaks the chain); the chain starts at the input and ends at the
+    model, so code(input) -> code(output) is a composition of validated edits;
+ M3 boundary (props/c08 observes the CLI side): the written file is the model's text.
+code() comes from the independent lexer applied to the emitted *text*, so glued tokens and
+comments swallowing code are visible."""
+from lib import fixmon
 
 PROP = "C01"
 
 
-def lexer_agrees(oFile, text):
-    """Two independent lexers must agree on the input before either is believed."""
-    from vsg import parser
-    from vsg.token import delimited_comment
-
-    skip = (parser.whitespace, parser.carriage_return, parser.blank_line, parser.comment, delimited_comment.beginning, delimited_comment.text, delimited_comment.ending, parser.preprocessor)
-    vs = "".join(t.get_value() for t in oFile.lAllObjects if not isinstance(t, skip) and not t.get_value().startswith("--"))
-    mine = "".join(t for k, t in vlex.segs(text) if k not in vlex.NONCODE)
-    return vs == mine
-
-
 def run_case(case):
-    text = fixrun.materialise(case)
-    r = fixrun.setup(case, text)
-    if isinstance(r, dict):
-        return r
-    oFile, oRules, a, oConfig = r
-    if not lexer_agrees(oFile, text):
-        return {"status": "lexer_disagrees"}
-    sink = effects.EffectSink()
-    inst = monitors.Instrument(oFile, oRules, [sink])
-    sink.start(oFile)
-    crash = None
-    try:
-        oRules.fix()
-    except harness.CpuTimeout:
-        raise
-    except Exception as e:
-        import traceback
-
-        crash = {"exc": type(e).__name__, "frame": fixrun.vsg_frame(traceback.format_exc())}
-    sink.finish(oFile)
-    viol = []
-    changed_rules = set()
-    for ev in sink.events:
-        if not ev["changed"]:
-            continue
-        changed_rules.add(ev["rule"])
-        bad = effects.check_rule_code_effect(ev["rule"], ev["before"], ev["after"])
-        if bad:
-            cb, ca = vlex.code(ev["before"]), vlex.code(ev["after"])
-            viol.append({"key": "%s:%s" % (ev["rule"], bad["class"]), "detail": {"rule": ev["rule"], "phase": ev["phase"], "bad": bad, "first_diff": effects.first_diff(cb, ca)}})
-    for cbk in sink.chain_breaks:
-        cb, ca = vlex.code(cbk["before"]), vlex.code(cbk["after"])
-        if cb != ca:
-            viol.append({"key": "outside-any-application:code-changed", "detail": {"where": cbk["where"], "first_diff": effects.first_diff(cb, ca)}})
-    # end to end: by transitivity.  Every step's (before, after) was validated (M1), the text chain has
-    # no gap (M2), so code(input) -> code(final) is a composition of permitted edits.  Assert the
-    # two ends of the chain really are the input and the final model.
-    ci, cf = vlex.code(sink.initial), vlex.code(sink.last)
-    if sink.initial.rstrip("\n") != text.rstrip("\n") and vlex.code(text) != ci:
-        viol.append({"key": "chain:start-is-not-the-input", "detail": effects.first_diff(vlex.code(text), ci)})
-    if monitors.snap(oFile) != sink.last:
-        viol.append({"key": "chain:end-is-not-the-model", "detail": {}})
-    res = {
-        "violations": viol,
-        "changed_rules": sorted(changed_rules),
-        "n_events": len(sink.events),
-        "fix_calls": sink.fix_calls,
-        "code_len": len(ci),
-        "code_changed": ci != cf,
-        "text_changed": sink.initial != sink.last,
-        "crash": crash,
-        "reach": dict(inst.reach),
-    }
-    if case.get("cli") and not crash:
-        res["cli"] = _cli_boundary(case, text, sink.last)
-    return res
-
-
-def _cli_boundary(case, text, model_text):
-    style, dicts = cfgpool.pool_entry(case.get("cfg", "none"))
-    d = os.path.join(vsgapi.scratch(), "c01cli_%d" % harness.stable_hash(json.dumps(case, sort_keys=True)))
-    os.makedirs(d, exist_ok=True)
-    try:
-        target = os.path.join(d, "case.vhd")
-        with open(target, "w", encoding="utf-8") as f:
-            f.write(text + "\n")
-        args = ["-f", target, "--fix", "-p", "1"]
-        if style:
-            args += ["--style", style]
-        if dicts:
-            args += ["-c"] + [vsgapi.write_config_file(x) for x in dicts]
-        rc, so, se = vsgapi.run_cli(args, cwd=d)
-        with open(target, encoding="utf-8") as f:
-            disk = f.read()
-        exp = model_text if model_text.endswith("\n") else model_text + "\n"
-        # text(M) as written by write_vhdl_file: "\n".join(lines) + "\n"; snap() already ends with "\n"
-        return {"rc": rc, "same": disk == exp, "code_same": vlex.code(disk) == vlex.code(exp), "traceback": se[-500:] if "Traceback" in se else None}
-    finally:
-        shutil.rmtree(d, ignore_errors=True)
-
-
-def _cases(tier, seed):
-    cases = fixrun.universe(tier, seed, 700, 12000)
-    import random
-
-    rng = random.Random(seed + 1)
-    ncli = 24 if tier == "quick" else 200
-    for c in rng.sample(cases, min(ncli, len(cases))):
-        c["cli"] = True
-    return cases
+    return fixmon.run(case, {PROP})
 
 
 def main(tier):
-    t0 = time.time()
-    seed = harness.seed()
-    cases = _cases(tier, seed)
-    results = harness.run_cases("props.c01", cases, cpu=400, wall=1800)
-    V = harness.Verdict(PROP)
-    stats = {"lexer_disagrees": 0, "rejected": 0, "skip": 0, "crashes(C19)": 0, "cli_checked": 0, "events": 0, "fix_calls": 0, "code_changed_runs": 0}
-    nontriv = set()
-    changed_rules = {}
-    for c, r in zip(cases, results):
-        st = r.get("status", "ok")
-        if st in ("harness_error", "worker_died", "inconclusive", "hang"):
-            if st == "hang":
-                continue  # C19's business
-            V.note_inconclusive("%s %s %s" % (fixrun.case_name(c), st, str(r.get("detail"))[:300]))
-            continue
-        if st != "ok":
-            stats[st] = stats.get(st, 0) + 1
-            continue
-        stats["events"] += r["n_events"]
-        stats["fix_calls"] += r["fix_calls"]
-        if r.get("crash"):
-            stats["crashes(C19)"] += 1
-        if r["code_changed"]:
-            stats["code_changed_runs"] += 1
-        if r["text_changed"]:
-            nontriv.add(fixrun.case_name(c))
-        for rid in r["changed_rules"]:
-            changed_rules[rid] = changed_rules.get(rid, 0) + 1
-        for v in r["violations"]:
-            V.violation(v["key"], c, v["detail"])
-        if "cli" in r:
-            stats["cli_checked"] += 1
-            if r["cli"].get("traceback"):
-                pass  # C19
-            elif not r["cli"]["same"]:
-                V.violation("cli-file-differs-from-model" + (":code" if not r["cli"]["code_same"] else ":layout"), c, r["cli"])
-    if len(nontriv) < 50 or stats["fix_calls"] < 10000:
-        V.note_inconclusive("too little observed: %d changing runs, %d fix calls" % (len(nontriv), stats["fix_calls"]))
-    rc = V.finish()
-    code_editing = sorted(r for r in changed_rules if r in effects.RULE_CONTRACT)
-    harness.write_evidence(
+    return fixmon.drive(
         PROP,
+        "props.c01",
         tier,
-        "exploration",
-        {
-            "evaluations": len(cases),
-            "distinct_nontrivial": len(nontriv),
-            "rule": "one evaluation per (input, variant, configuration) monitored fix run; non-trivial = at least one rule changed the text; distinct by case description",
-            "samples": [{"case": c, "changed_rules": r.get("changed_rules", [])[:12], "events": r.get("n_events")} for c, r in list(zip(cases, results))[:4]],
-            "counters": stats,
-            "distinct_rules_observed_changing_text": len(changed_rules),
-            "code_editing_rules_observed": code_editing,
-            "config_pool": sorted({c.get("cfg") for c in cases}),
-            "known_findings_hit": sorted(V.known_hit),
-            "inconclusive": V.inconclusive[:10],
-        },
-        time.time() - t0,
-        len(V.unknown),
-        assumptions=[
-            "independent lexer (lib/vlex.py) defines code tokens; inputs on which it disagrees with VSG's own parse are skipped (counted), never judged",
-            "edit contracts per rule are derived from the rule documentation (lib/effects.py RULE_CONTRACT)",
-        ],
+        7500,
+        40000,
+        rule_text='one evaluation per (input, variant, configuration) monitored fix run from the finite universe; non-trivial = the two lexers agree on the input and at least one rule changed the text; distinct by case description',
+        assumptions=["independent lexer (lib/vlex.py) defines code tokens; inputs on which it disagrees with VSG's own parse are skipped (counted), never judged", 'edit contracts per rule are derived from the rule documentation (lib/effects.py RULE_CONTRACT)'],
+        min_nontrivial=200,
+        universe_kw={},
     )
-    return rc
 
 
 def replay(path):
-    with open(path) as f:
-        d = json.load(f)
-    res = run_case(d["case"])
-    print(json.dumps({k: v for k, v in res.items() if k != "changed_rules"}, indent=1, default=str)[:4000])
-    vsgapi.cleanup_scratch()
-    if res.get("violations"):
-        print("VIOLATION property=%s replay=%s" % (PROP, path))
-        return 1
-    return 0
+    return fixmon.replay(PROP, path)
